@@ -761,6 +761,11 @@ theorem inv_step {s : KS α κ} (op : Op α κ) (hi : Inv s) :
     · simp only [step, outOf_fst]; exact inv_iOp .iand (.ks s) hi
     · simp only [step, outOf_fst]; exact inv_clear hi
     · simp only [step, outOf_fst]; exact inv_clear hi
+  | probe refl b o x =>
+    simp only [step]
+    split
+    · exact ⟨hi, SameKind.refl _⟩
+    · exact inv_toggleAllP _ hi
 
 theorem inv_run {s : KS α κ} (ops : List (Op α κ)) (hi : Inv s) :
     Inv (run s ops).1 ∧ SameKind (run s ops).1 s := by
